@@ -213,6 +213,82 @@ def run_probe(crate, n, feats, fx, fx_path, idx):
     shutil.rmtree(d, ignore_errors=True)
     return res
 
+# ---- paseto-json: the same probe program built against the full and the reduced build ------
+JSON_PROBE_CARGO = """[package]
+name = "c19-json-probe"
+version = "0.0.0"
+edition = "2024"
+publish = false
+[workspace]
+[dependencies]
+paseto-core = {{ path = "/repo/paseto-core" }}
+paseto-json = {{ path = "/repo/paseto-json", default-features = false, features = [{feats}] }}
+serde_json = "1"
+[profile.dev]
+opt-level = 1
+debug = false
+"""
+
+JSON_PROBE_SRC = r"""
+use paseto_core::encodings::{Footer, Payload};
+use paseto_json::Json;
+use std::collections::BTreeMap;
+
+fn lcg(s: &mut u64) -> u64 { *s = s.wrapping_mul(6364136223846793005).wrapping_add(1442695040888963407); *s ^ (*s >> 29) }
+
+fn main() {
+    let seed: u64 = std::env::args().nth(1).and_then(|x| x.parse().ok()).unwrap_or(1);
+    let n: usize = std::env::args().nth(2).and_then(|x| x.parse().ok()).unwrap_or(1000);
+    let mut s = seed;
+    let mut texts: Vec<String> = Vec::new();
+    for i in 0..n {
+        let bits = lcg(&mut s);
+        // doubles of every magnitude, and doubles of everyday magnitude (exponent near 0)
+        let f = if i % 2 == 0 { f64::from_bits(bits) } else { f64::from_bits((bits & 0x800f_ffff_ffff_ffff) | ((1023 - 8 + (bits >> 52) % 24) << 52)) };
+        if !f.is_finite() { continue; }
+        texts.push(format!("{f:?}"));          // shortest round-trip spelling
+        texts.push(format!("{f:.17e}"));       // 18 significant digits, exponent form
+        if f.abs() < 1e15 && f.abs() > 1e-5 { texts.push(format!("{f:.20}")); }
+        texts.push(serde_json::to_string(&f).unwrap()); // what serde_json itself prints
+    }
+    for t in ["0", "-0", "-0.0", "1e400", "1e-400", "18446744073709551615", "18446744073709551616", "-9223372036854775808", "-9223372036854775809",
+              "0.1", "1E5", "1e+5", "123456789012345678901234567890", "4.9e-324", "2.2250738585072011e-308", "1.7976931348623157e308", "1.7976931348623159e308"] {
+        texts.push(t.to_string());
+    }
+    for t in &texts {
+        let doc = format!("{{\"x\":{t}}}");
+        let as_f64 = <Json<BTreeMap<String, f64>> as Payload>::decode(doc.as_bytes());
+        let as_val = <Json<serde_json::Value> as Footer>::decode(doc.as_bytes());
+        let a = match as_f64 { Ok(m) => format!("{:016x}", m.0["x"].to_bits()), Err(_) => "ERR".to_string() };
+        let b = match as_val {
+            Ok(v) => { let mut w = Vec::new(); match Payload::encode(Json(v.0), &mut w) { Ok(()) => String::from_utf8_lossy(&w).into_owned(), Err(_) => "ENCODE-ERR".into() } }
+            Err(_) => "ERR".to_string(),
+        };
+        println!("J {t} {a} {b}");
+    }
+    // strings and structure
+    for t in ["\"\\u0000\\ud83d\\ude00\\/\"", "[1,[2,[3,[4]]]]", "{\"a\":{\"a\":{\"a\":null}}}", "\"\u{2028}\"", " [ 1 , 2 ] ", "{\"k\":1,\"k\":2}", "[1,]", "{\"a\":1}x", "nul", ""] {
+        let v = <Json<serde_json::Value> as Payload>::decode(t.as_bytes());
+        let b = match v { Ok(v) => { let mut w = Vec::new(); let _ = Footer::encode(&Json(v.0), &mut w); String::from_utf8_lossy(&w).into_owned() } Err(_) => "ERR".to_string() };
+        println!("S {t:?} {b}");
+    }
+    println!("DONE");
+}
+"""
+
+def run_json_probe(feats, seed_v, n):
+    label = "claims" if feats else "none"
+    d = os.path.join(TARGET, "c19", f"json-probe-{label}")
+    shutil.rmtree(d, ignore_errors=True)
+    os.makedirs(os.path.join(d, "src"))
+    open(os.path.join(d, "Cargo.toml"), "w").write(JSON_PROBE_CARGO.format(feats=", ".join(f'"{x}"' for x in feats)))
+    shutil.copy(os.path.join(REPO, "Cargo.lock"), os.path.join(d, "Cargo.lock"))
+    open(os.path.join(d, "src", "main.rs"), "w").write(JSON_PROBE_SRC)
+    r = run(["cargo", "run", "--offline", "--quiet", "--target-dir", os.path.join(TARGET, "c19", f"jtarget-{label}"), "--", str(seed_v), str(n)], cwd=d, timeout=2400)
+    shutil.rmtree(d, ignore_errors=True)
+    ok = r.returncode == 0 and "DONE" in r.stdout
+    return ok, r.stdout.splitlines(), r.stderr[-1200:]
+
 def main():
     t0 = time.time()
     args = sys.argv[1:]
@@ -277,6 +353,30 @@ def main():
             if rc != 0:
                 first = next((l for l in err.splitlines() if l.startswith("error")), err[:200])
                 report(f"C19/{crate}/build-fails/{'+'.join(feats) or 'none'}", f"{crate} does not compile with features {feats}: {first}", {"crate": crate, "features": feats, "kind": "check"})
+    # paseto-json: the operations present in both builds (Json<T> payload / footer encode and decode)
+    # must behave identically: one generated corpus of JSON texts through both builds, outputs diffed
+    json_lines = 0
+    if not replay or replay.get("kind") == "json-diff":
+        nj = 4000 if tier == "quick" else 60000
+        okf, full, errf = run_json_probe(["claims"], seed(), nj)
+        okr, red, errr = run_json_probe([], seed(), nj)
+        case = {"crate": "paseto-json", "features": [], "kind": "json-diff"}
+        if not okf:
+            harness.append(f"paseto-json probe (full build) failed to build or run: {errf[-300:]}")
+        elif not okr:
+            first = next((l for l in errr.splitlines() if l.startswith("error") or "panicked" in l), errr[-300:])
+            report("C19/paseto-json/probe-fails/none", f"probe of paseto-json without features failed to build or run: {first}", case)
+        else:
+            json_lines = len(full)
+            evaluations += len(full)
+            nontrivial.update(("paseto-json", "json-diff", l.split(" ")[1]) for l in full if l.startswith("J ") and ("e" in l.split(" ")[1] or "." in l.split(" ")[1]))
+            if len(full) != len(red):
+                report("C19/paseto-json/reduced-build-differs/output-length", f"the two builds print {len(full)} vs {len(red)} lines for the same corpus", case)
+            for a, b in zip(full, red):
+                if a != b:
+                    report("C19/paseto-json/reduced-build-differs/json-decode", f"paseto-json with and without the `claims` feature treat the same JSON text differently: full build `{a[:160]}`, reduced build `{b[:160]}`", case)
+                    break
+            samples.append({"crate": "paseto-json", "differential": "features [claims] vs []", "json_texts_compared": len(full), "example": full[1] if len(full) > 1 else ""})
     # ---- (2) behaviour of reduced builds
     def probes_for(crate):
         table, cl = all_closures[crate]
@@ -329,7 +429,7 @@ def main():
     write_evidence("C19", tier, "exploration", {
         "evaluations": evaluations,
         "distinct_nontrivial": len(nontrivial),
-        "rule": "(1) every subset of the feature flags of paseto-v1/v2/v3/v4 collapsed to its distinct closure under the [features] implication graph read from Cargo.toml, each checked with cargo check --no-default-features --features <generators> (plus paseto-core +-serde, paseto-json +-claims): exhaustive over closures; (2) generated probe crates depending on the reduced build (quick: verify-only, decrypt-only, sign+encrypt (no PASERK), id+verify, id+decrypt, pie-wrap only, pbkw only, pke only and 2 seeded closures per crate; thorough: every non-empty closure) replay fixtures produced by the full build (tokens, PIE, PBKW, sealed key, ids for the run's seed) through every operation the closure offers and print what they produce; the full build and the reference model must accept it (deterministic signatures and ids byte-identical). Non-trivial iff the closure is neither empty nor full / a probe ran",
+        "rule": "(1) every subset of the feature flags of paseto-v1/v2/v3/v4 collapsed to its distinct closure under the [features] implication graph read from Cargo.toml, each checked with cargo check --no-default-features --features <generators> (plus paseto-core +-serde, paseto-json +-claims): exhaustive over closures; (2) generated probe crates depending on the reduced build (quick: verify-only, decrypt-only, sign+encrypt (no PASERK), id+verify, id+decrypt, pie-wrap only, pbkw only, pke only and 2 seeded closures per crate; thorough: every non-empty closure) replay fixtures produced by the full build (tokens, PIE, PBKW, sealed key, ids for the run's seed) through every operation the closure offers and print what they produce; the full build and the reference model must accept it (deterministic signatures and ids byte-identical); (3) paseto-json: one probe program built against the crate with and without `claims` decodes and re-encodes a generated corpus of JSON texts (doubles of every magnitude in shortest / 18-digit / fixed / serde_json spelling, integer edge values, escapes, nesting, malformed texts) through Json<T> payload and footer: the two outputs must be identical line by line. Non-trivial iff the closure is neither empty nor full / a probe ran",
         "samples": samples or [{"note": "no probe ran"}],
         "closures_per_crate": per_crate,
         "probes_run": probes,
